@@ -5,38 +5,72 @@
   with itself without parentheses. Every node of the tree records the source span that exactly
   covers the text it was parsed from, and malformed input is rejected with a syntax error."
 
-  Model: `Yae.Model.Parser` (`parse ops times toks`).  Proofs: `Yae.Proofs.Parse` (unfolding
-  lemmas, `Expr.All`, `NodeOK`), `Yae.Proofs.ParseInv` (the node-wise invariant of the seven
-  mutually recursive parser functions, one induction on the fuel), `Yae.Proofs.ParseNodes`
-  (the two instances), `Yae.Proofs.ParseFuel`.
+  Model: `Yae.Model.Parser` (`parse ops times toks`).  Proofs: `Yae.Proofs.Parse*`.
 
-  WHAT IS PROVED HERE (all for every operator table, token list, `strtotime` table, fuel):
-  * `nonassoc`      — in every returned tree, at every `Binary` node of fixity `INFIX_N`, neither
-                      direct child is a `Binary` node with the same operator name.
-  * `span_composed` — in every returned tree, every operator / member / call / subscript node's
-                      span is `pos.Range` of its first child (or operator token) and its last
-                      child (or operator / field token), and that range is well oriented.
-  * `outcomes`      — the result is a tree, the syntax error, or (model only) a time literal
-                      missing from the supplied `strtotime` table; never `.fuel`.
-  * `node_invariant`— the general principle behind the first two.
+  DEFINITIONS (all declarative; none of them runs the parser)
+  * `Yields env t i j` (`Proofs/ParseYield`): the tree `t` is read off the tokens `i … j-1` by the
+    ambiguous context-free grammar of the language — which token may start / continue an
+    expression is taken from the two tables of the grammar, no binding power is compared; nodes
+    are built exactly as the model builds them (`pos.Range` checks included).
+  * `Respects g t` (`Proofs/ParseRespects`): (R1) below a node open on the right, with
+    right binding power `rbp`, every led-built node on the left spine of its last operand has
+    `rbp < lbp`; (R2) under a led-built node with power `lbp`, no node open on the right on the
+    right spine of its first operand has `rbp < lbp`; (R3) operands read with `expr(0)` and the
+    root: `0 < lbp` along the left spine; a callee that is not a member node does not end in a
+    member node; (R4) a non-associative operator is not chained with itself.
+  * `WFGrammar g` / `WFOps ops` (`Proofs/ParseCompleteBase`, `ParseCompleteTop`): no
+    `<END-OF-FILE>` entry; `)` `]` `}` `,` `:` have no infix entry; `)` `]` `:` have no prefix entry;
+    no negative prefix power.  NaN, zero and negative infix powers are allowed.
+  * `TokensOrdered toks`: the conclusion of `Yae.C09.lex_ordered` (positions in source order,
+    no overlap, not empty, not negative).
+  * `OpLexemes ops toks`: every token whose kind has an infix entry or a prefix-operator entry has
+    `lexeme = kind` (operator nodes record the LEXEME, the tables are keyed by the KIND).
 
-  WHAT IS NOT PROVED (labelled, not hidden):
-  * the completeness half of the first sentence ("exactly the tree dictated by the
-    declarations", redundant / required parentheses): no declarative grammar is given here;
-  * `yield` (the tree determines the consumed tokens): not attempted;
-  * full nesting of spans ("children's spans lie within the node's span"): needs the token
-    positions to be increasing (which `Yae.C09.lex_ordered` provides for lexed input) and an
-    invariant tracking the cursor; `span_composed` is the part that holds for ARBITRARY token
-    lists.  For `Group`, `List`, `Map`, `Obj` the span runs from the opening to the closing token,
-    which are not part of the tree, so nothing can be said about them without the token list.
-  * non-vacuity by evaluation: `parse` compares binding powers, which are `Float`s and opaque to
-    the kernel, so no `example : parse … = .ok …` can be kernel-checked (not even for a single
-    identifier: `pInfix` asks `0 > 0`).  That `parse` does return trees is witnessed by the
-    differential-test streams of the parser model.  The examples below show instead that the
-    conclusions are not trivially true: they hold of the grouped tree and fail for the chained one.
+  WHAT IS PROVED HERE
+  (for every operator table, token list, `strtotime` table, fuel)
+  * `nonassoc`, `span_composed`, `outcomes`, `node_invariant` — as before.
+  (for every operator table without an operator of kind `<END-OF-FILE>`)
+  * `yields_prefix`, `yields` — the returned tree yields the tokens it was parsed from: all of
+    them when no token has the kind `<END-OF-FILE>`.
+  * `span_exact` — with `TokensOrdered`: EVERY node of the returned tree yields a token range
+    `[a, b)`, `a < b`, and records exactly its span: index, column, line of token `a`, end index
+    of token `b-1`.
+  * `span_nested` — with `TokensOrdered`: at every node the children's spans (and the recorded
+    operator / field-name position) are not empty, lie within the node's span, are pairwise
+    disjoint and in source order.  `lexed_ordered`: lexed input is `TokensOrdered`.
+  * `respects` — with `OpLexemes`: the returned tree respects the declarations.
+  (for every WELL-FORMED operator table)
+  * `complete` — a tree that yields all the tokens and respects the declarations is what `parse`
+    returns; `unique` — there is at most one such tree; `exactly` — `parse … = .ok t` IF AND
+    ONLY IF `t` yields the tokens and respects the declarations.
+  * `required_parens` — a tree containing `Group` nodes that yields the tokens (so the
+    parentheses are in the text) and respects the declarations is returned WITH those nodes.
+  * `wf_builtin`, `WFOps.grammar` — the built-in table is well formed; a well-formed table gives a
+    well-formed grammar.  `closer_needed`, `nonneg_prefix_needed`: completeness FAILS without
+    the clauses "`)` has no infix entry" / "no negative prefix power" (kernel-checked).
+
+  * `redundant_parens` — REDUNDANT PARENTHESES NEVER CHANGE THE TREE: if `parse` returns `t` on
+    `toks`, the node `Group p e` of `t` was read from the tokens `[a, b]`, and `t` without that
+    node still respects the declarations, then on the token list without the tokens `a` and `b`
+    `parse` returns `t` without that node (`UG p e t t'`: one occurrence of `Group p e` replaced
+    by `e`; the spans recorded at its ancestors may change, nothing else).  Proof: the yield of
+    `t` is transported along the deletion of the two tokens (`Proofs/ParseShift`,
+    `ParseUngroup*`), then `complete`.  Needs `TokensOrdered` (so that `pos.Range` succeeds on
+    the new spans).  The case `(o.f)(x)` / `o.f(x)` is covered and is no exception at the level
+    of the parse tree: without the group the callee is a member node, which is the method-call
+    form, and that is exactly what `parse` returns for `o.f(x)` (kernel-checked example below).
+
+  WHAT IS NOT PROVED
+  * `OpLexemes` is a hypothesis, not derived from the lexer.
+  * In `redundant_parens` the hypothesis "still respects" is stated for every tree related to `t`
+    by `UG p e` (they differ only in the spans of the ancestors, which `Respects` ignores).
+  * Non-vacuity: binding powers are now bits (`Yae.BP`), so `parse` is evaluated by the kernel:
+    see the examples at the end.
 -/
-import Yae.Proofs.ParseNodes
-import Yae.Proofs.ParseFuel
+import Yae.Proofs.ParseCompleteTop
+import Yae.Proofs.ParseUngroupTop
+import Yae.Proofs.ParseYieldAll
+import Yae.Props.C09
 namespace Yae.C08
 open Yae
 
@@ -112,7 +146,7 @@ start and takes the end index of the end):
   `f(args)`, `v[i]`      — starts where the callee / the indexed value starts;
 and every such range is well oriented (start index ≤ index of the end part).
 
-`span_nested` (children within the node) is NOT proved: see the header. -/
+This part holds for ARBITRARY token lists; for `span_exact` / `span_nested` see below. -/
 theorem span_composed {ops : List Operator} {times : List (String × Int)} {toks : List Token}
     {t : Expr} (h : parse ops times toks = .ok t) : t.All Expr.spanHere :=
   parseWith_all span_nodeOK h
@@ -162,6 +196,324 @@ theorem outcomes {ops : List Operator} (hops : ∀ o ∈ ops, o.kind ≠ "<END-O
 
 example : ∀ o ∈ [(⟨"==", 7, fixInfixN⟩ : Operator)], o.kind ≠ "<END-OF-FILE>" := by decide
 
+/-! ## stage 1: yield and exact spans -/
+
+/-- the hypothesis on the operator table as the parser environment sees it -/
+theorem noEOF_of {ops : List Operator} (hops : ∀ o ∈ ops, o.kind ≠ "<END-OF-FILE>")
+    (times : List (String × Int)) (toks : List Token) : PEnv.NoEOF (mkEnv ops times toks) :=
+  newGrammar_noEOF hops
+
+/-- The returned tree yields a prefix `[0, j)` of the tokens, and token `j` is the end of the
+input: there is none, or it has the kind `<END-OF-FILE>`. -/
+theorem yields_prefix {ops : List Operator} (hops : ∀ o ∈ ops, o.kind ≠ "<END-OF-FILE>")
+    {times : List (String × Int)} {toks : List Token} {t : Expr}
+    (h : parse ops times toks = .ok t) :
+    ∃ j, Yields (mkEnv ops times toks) t 0 j ∧ ((mkEnv ops times toks).peek j).kind = tkEOF :=
+  parseWith_yields (noEOF_of hops times toks) h
+
+/-- **Yield.**  When no token has the kind `<END-OF-FILE>` (true of lexed input) the returned
+tree yields ALL the tokens: it is a reading of `toks[0 .. n)` by the context-free grammar
+`Yields`. -/
+theorem yields {ops : List Operator} (hops : ∀ o ∈ ops, o.kind ≠ "<END-OF-FILE>")
+    {times : List (String × Int)} {toks : List Token} (htk : ∀ t ∈ toks, t.kind ≠ "<END-OF-FILE>")
+    {t : Expr} (h : parse ops times toks = .ok t) :
+    Yields (mkEnv ops times toks) t 0 toks.length :=
+  parseWith_yields_all (noEOF_of hops times toks) htk h
+
+/-- Lexed input has ordered tokens: `TokensOrdered` is a part of `Yae.C09.lex_ordered`. -/
+theorem lexed_ordered {ops : List Operator} {s : List Char} {ts : List Token}
+    (h : lex ops s = .ok ts) : TokensOrdered ts :=
+  ⟨fun t ht => ⟨((Yae.C09.lex_ordered h).1 t ht).1, ((Yae.C09.lex_ordered h).1 t ht).2.1⟩,
+    (Yae.C09.lex_ordered h).2⟩
+
+theorem mkEnv_peek {ops : List Operator} {times : List (String × Int)} {toks : List Token} {a : Nat}
+    (ha : a < toks.length) : (mkEnv ops times toks).peek a = toks[a] := by
+  rw [PEnv.peek_lt _ (by simpa [mkEnv] using ha)]; simp [mkEnv]
+
+/-- **Exact spans.**  With token positions in source order, EVERY node `n` of the returned tree
+was read from a non-empty token range `[a, b)` (`Yields … n a b`) and records exactly the span of
+that range: it starts where token `a` starts (index, column, line) and ends where token `b-1`
+ends.  (Member, call and subscript nodes start at their object / callee.) -/
+theorem span_exact {ops : List Operator} (hops : ∀ o ∈ ops, o.kind ≠ "<END-OF-FILE>")
+    {times : List (String × Int)} {toks : List Token} (hord : TokensOrdered toks)
+    {t : Expr} (h : parse ops times toks = .ok t) :
+    t.All (fun n => ∃ (a b : Nat) (_ : a < b) (_ : b ≤ toks.length),
+      Yields (mkEnv ops times toks) n a b ∧
+      n.pos.idx = toks[a].pos.idx ∧ n.pos.col = toks[a].pos.col ∧ n.pos.line = toks[a].pos.line ∧
+      n.pos.idxEnd = toks[b - 1].pos.idxEnd) := by
+  obtain ⟨j, hy, _⟩ := yields_prefix hops h
+  refine Expr.All.imp ?_ (hy.all_span (hord.env (ops := ops) (times := times)))
+  rintro n ⟨a, b, _, _, hn, hab, hb, hp⟩
+  have hb' : b ≤ toks.length := by simpa [mkEnv] using hb
+  refine ⟨a, b, hab, hb', hn, ?_⟩
+  rw [mkEnv_peek (by omega), mkEnv_peek (by omega)] at hp
+  rw [hp]
+  exact ⟨rfl, rfl, rfl, rfl⟩
+
+/-- **Span nesting.**  With token positions in source order, at EVERY node of the returned tree:
+the node's span is not empty; each child's span (and the recorded position of the operator /
+field-name token) is not empty and lies within it; these parts are pairwise disjoint and in
+source order (`Expr.spanNested`, `Expr.parts`). -/
+theorem span_nested {ops : List Operator} (hops : ∀ o ∈ ops, o.kind ≠ "<END-OF-FILE>")
+    {times : List (String × Int)} {toks : List Token} (hord : TokensOrdered toks)
+    {t : Expr} (h : parse ops times toks = .ok t) : t.All Expr.spanNested := by
+  obtain ⟨j, hy, _⟩ := yields_prefix hops h
+  exact hy.nested (hord.env (ops := ops) (times := times))
+
+/-- The conclusion is not trivial: overlapping children violate it. -/
+example :
+    ¬ (Expr.binary ⟨0, 5, 0, 0⟩ "+" ⟨2, 3, 2, 0⟩ fixInfixL (.ident ⟨0, 3, 0, 0⟩ "a")
+        (.ident ⟨4, 5, 4, 0⟩ "b")).spanNested ∧
+    (Expr.binary ⟨0, 5, 0, 0⟩ "+" ⟨2, 3, 2, 0⟩ fixInfixL (.ident ⟨0, 1, 0, 0⟩ "a")
+        (.ident ⟨4, 5, 4, 0⟩ "b")).spanNested := by
+  simp [Expr.spanNested, Expr.parts, Expr.pos]
+
+/-! ## stage 2: the declarations are respected -/
+
+/-- **The returned tree respects the declarations** (`Respects`: (R1)–(R4) of the header), for
+every operator table; operator tokens are assumed to carry their kind as lexeme. -/
+theorem respects {ops : List Operator} (hops : ∀ o ∈ ops, o.kind ≠ "<END-OF-FILE>")
+    {times : List (String × Int)} {toks : List Token} (hL : OpLexemes ops toks)
+    {t : Expr} (h : parse ops times toks = .ok t) : Respects (newGrammar ops) t :=
+  parseWith_respects (noEOF_of hops times toks) hL h
+
+/-- `Respects` separates the two readings of `a + b * c` (built-in powers: `+` 7, `*` 8): the
+tree `a + (b * c)` respects them, `(a + b) * c` WITHOUT a group node does not. -/
+example :
+    Respects (newGrammar builtinOps)
+      (.binary Pos.zero "+" Pos.zero fixInfixL (.ident Pos.zero "a")
+        (.binary Pos.zero "*" Pos.zero fixInfixL (.ident Pos.zero "b") (.ident Pos.zero "c"))) ∧
+    ¬ Respects (newGrammar builtinOps)
+      (.binary Pos.zero "*" Pos.zero fixInfixL
+        (.binary Pos.zero "+" Pos.zero fixInfixL (.ident Pos.zero "a") (.ident Pos.zero "b"))
+        (.ident Pos.zero "c")) := by
+  simp only [Respects, Expr.All, Expr.respHere, Expr.leftAbove, Expr.rightOK, Expr.noChainHere,
+    binRbp_L]
+  decide
+
+/-- … and the two readings of the right-associative `a ^ b ^ c`. -/
+example :
+    Respects (newGrammar builtinOps)
+      (.binary Pos.zero "^" Pos.zero fixInfixR (.ident Pos.zero "a")
+        (.binary Pos.zero "^" Pos.zero fixInfixR (.ident Pos.zero "b") (.ident Pos.zero "c"))) ∧
+    ¬ Respects (newGrammar builtinOps)
+      (.binary Pos.zero "^" Pos.zero fixInfixR
+        (.binary Pos.zero "^" Pos.zero fixInfixR (.ident Pos.zero "a") (.ident Pos.zero "b"))
+        (.ident Pos.zero "c")) := by
+  simp only [Respects, Expr.All, Expr.respHere, Expr.leftAbove, Expr.rightOK, Expr.noChainHere,
+    binRbp_R]
+  decide
+
+/-! ## stage 3: completeness and uniqueness -/
+
+/-- The built-in operator table is well formed … -/
+theorem wf_builtin : WFOps builtinOps := by unfold WFOps; decide
+
+/-- … hence so is its grammar (`WFOps.grammar` holds for every well-formed table). -/
+example : WFGrammar (newGrammar builtinOps) := wf_builtin.grammar
+
+/-- **Completeness.**  For a well-formed operator table: a tree that yields all the tokens and
+respects the declarations IS the result of `parse`. -/
+theorem complete {ops : List Operator} (hW : WFOps ops) {times : List (String × Int)}
+    {toks : List Token} (hL : OpLexemes ops toks) {t : Expr}
+    (hy : Yields (mkEnv ops times toks) t 0 toks.length) (hR : Respects (newGrammar ops) t) :
+    parse ops times toks = .ok t :=
+  parse_complete hW.grammar hL hy hR
+
+/-- **Uniqueness.**  Two trees that yield the same tokens and respect the declarations are equal:
+the declarations dictate the tree. -/
+theorem unique {ops : List Operator} (hW : WFOps ops) {times : List (String × Int)}
+    {toks : List Token} (hL : OpLexemes ops toks) {t t' : Expr}
+    (hy : Yields (mkEnv ops times toks) t 0 toks.length) (hR : Respects (newGrammar ops) t)
+    (hy' : Yields (mkEnv ops times toks) t' 0 toks.length) (hR' : Respects (newGrammar ops) t') :
+    t = t' :=
+  respects_unique hW.grammar hL hy hR hy' hR'
+
+/-- **The parser returns exactly the tree dictated by the declarations**: for a well-formed
+operator table, `parse` returns `t` if and only if `t` yields the token list and respects the
+declarations.  (Hence `parse` fails exactly when no such tree exists.) -/
+theorem exactly {ops : List Operator} (hW : WFOps ops) {times : List (String × Int)}
+    {toks : List Token} (hL : OpLexemes ops toks) (htk : ∀ t ∈ toks, t.kind ≠ "<END-OF-FILE>")
+    {t : Expr} :
+    parse ops times toks = .ok t ↔
+      (Yields (mkEnv ops times toks) t 0 toks.length ∧ Respects (newGrammar ops) t) :=
+  parse_iff hW.grammar hL htk
+
+/-- **Required parentheses are respected.**  A tree with a `Group` node that yields the tokens —
+so the `(` and `)` of that node are tokens of the text — and respects the declarations is
+returned as it is, `Group` node included (in `Respects` a `Group` shields its body: (R3) only). -/
+theorem required_parens {ops : List Operator} (hW : WFOps ops) {times : List (String × Int)}
+    {toks : List Token} (hL : OpLexemes ops toks) {t : Expr}
+    (hy : Yields (mkEnv ops times toks) t 0 toks.length) (hR : Respects (newGrammar ops) t) :
+    parse ops times toks = .ok t :=
+  complete hW hL hy hR
+
+/-- **Redundant parentheses never change the tree.**  Let `parse` return `t` on `toks` (token
+positions in source order), let `Group p e` be a node of `t` (`hsub`) read from the tokens
+`a … b` (`hG`: `a` is its `(`, `b` its `)`), and suppose `t` without that node still respects the
+declarations (`hR`; `UG p e t t'` says that `t'` is `t` with one occurrence of `Group p e` replaced
+by its body `e`, the spans recorded at the ancestors of that node being free: a span that began
+at the `(` or ended at the `)` now begins / ends with the body).  Then `parse` on the token list
+without the two parentheses (`dropTwo toks a b`) returns `t` without that node. -/
+theorem redundant_parens {ops : List Operator} (hW : WFOps ops) {times : List (String × Int)}
+    {toks : List Token} (hL : OpLexemes ops toks) (hord : TokensOrdered toks)
+    (htk : ∀ t ∈ toks, t.kind ≠ "<END-OF-FILE>") {t : Expr} (h : parse ops times toks = .ok t)
+    {p : Pos} {e : Expr} {a b : Nat}
+    (hG : Yields (mkEnv ops times toks) (.group p e) a (b + 1))
+    (hsub : ∃ t0, UG p e t t0)
+    (hR : ∀ t', UG p e t t' → Respects (newGrammar ops) t') :
+    ∃ t', UG p e t t' ∧ parse ops times (dropTwo toks a b) = .ok t' :=
+  parse_ungroup hW.grammar hL hord htk h hG hsub hR
+
+/-! ## non-vacuity: the parser evaluated by the kernel -/
+
+def isSyntaxErr : Except ParseErr Expr → Bool
+  | .error .syntax => true
+  | _ => false
+
+theorem eq_of_isSyntaxErr {r : Except ParseErr Expr} (h : isSyntaxErr r = true) :
+    r = .error .syntax := by
+  cases r with
+  | error e => cases e <;> simp_all [isSyntaxErr]
+  | ok _ => simp [isSyntaxErr] at h
+
+/-- a token at `[a, b)` on line 0 -/
+def tk (k l : String) (a b : Int) : Token := ⟨k, l, ⟨a, b, a, 0⟩⟩
+def sym (n : String) (a : Int) : Token := tk "<sym>" n a (a + 1)
+def op (k : String) (a : Int) : Token := tk k k a (a + k.length)
+
+mutual
+/-- the shape of a tree, positions dropped -/
+def sx : Expr → List String
+  | .ident _ n => [n]
+  | .bool _ b => [if b then "true" else "false"]
+  | .num _ _ => ["<num>"]
+  | .str _ v => [v]
+  | .time _ _ => ["<time>"]
+  | .group _ e => ["(", "group"] ++ sx e ++ [")"]
+  | .unary _ n _ e true => ["(", "pre", n] ++ sx e ++ [")"]
+  | .unary _ n _ e false => ["(", "post", n] ++ sx e ++ [")"]
+  | .binary _ n _ _ l r => ["(", n] ++ sx l ++ sx r ++ [")"]
+  | .ternary _ n _ l m r => ["(", n] ++ sx l ++ sx m ++ sx r ++ [")"]
+  | .call _ _ c as _ _ _ => ["(", "call"] ++ sx c ++ sxList as ++ [")"]
+  | .member _ _ o f _ _ _ => ["(", "."] ++ sx o ++ [f, ")"]
+  | .subscript _ _ v i _ => ["(", "[]"] ++ sx v ++ sx i ++ [")"]
+  | .list _ es _ => ["(", "list"] ++ sxList es ++ [")"]
+  | .map _ ps _ => ["(", "map"] ++ sxPairs ps ++ [")"]
+  | .obj _ fs _ => ["(", "obj"] ++ sxFields fs ++ [")"]
+def sxList : ExprList → List String
+  | .nil => []
+  | .cons e es => sx e ++ sxList es
+def sxPairs : PairList → List String
+  | .nil => []
+  | .cons k v ps => sx k ++ sx v ++ sxPairs ps
+def sxFields : FieldEList → List String
+  | .nil => []
+  | .cons n e fs => n :: sx e ++ sxFields fs
+end
+
+/-- the shape of the parse with the built-in operators -/
+def shape (toks : List Token) : Option (List String) :=
+  (parse builtinOps [] toks).toOption.map sx
+
+/-- `a + b * c` -/
+def toks1 : List Token := [sym "a" 0, op "+" 2, sym "b" 4, op "*" 6, sym "c" 8]
+example : shape toks1 = some ["(", "+", "a", "(", "*", "b", "c", ")", ")"] := by decide +kernel
+
+/-- `a ^ b ^ c` (right-associative) and `a - b - c` (left-associative) -/
+def toks2 : List Token := [sym "a" 0, op "^" 2, sym "b" 4, op "^" 6, sym "c" 8]
+example : shape toks2 = some ["(", "^", "a", "(", "^", "b", "c", ")", ")"] := by decide +kernel
+example : shape [sym "a" 0, op "-" 2, sym "b" 4, op "-" 6, sym "c" 8] =
+    some ["(", "-", "(", "-", "a", "b", ")", "c", ")"] := by decide +kernel
+
+/-- `(a == b) == c` is accepted with its group node, `a == b == c` is a syntax error -/
+def toks3 : List Token :=
+  [op "(" 0, sym "a" 1, op "==" 3, sym "b" 6, op ")" 7, op "==" 9, sym "c" 12]
+example : shape toks3 =
+    some ["(", "==", "(", "group", "(", "==", "a", "b", ")", ")", "c", ")"] := by decide +kernel
+example : parse builtinOps [] [sym "a" 1, op "==" 3, sym "b" 6, op "==" 9, sym "c" 12] =
+    .error .syntax := eq_of_isSyntaxErr (by decide +kernel)
+
+/-- `-a.f(x)[1] ? b : c`: member, method call and subscript bind tighter than the prefix `-`,
+which binds tighter than `?:` -/
+def toks4 : List Token :=
+  [op "-" 0, sym "a" 1, op "." 2, sym "f" 3, op "(" 4, sym "x" 5, op ")" 6, op "[" 7,
+   tk "<num>" "1" 8 9, op "]" 9, op "?" 11, sym "b" 13, op ":" 15, sym "c" 17]
+example : shape toks4 =
+    some ["(", "?", "(", "pre", "-", "(", "[]", "(", "call", "(", ".", "a", "f", ")", "x", ")",
+      "<num>", ")", ")", "b", "c", ")"] := by decide +kernel
+
+/-- the hypotheses of the theorems hold of these token lists -/
+example : TokensOrdered toks1 ∧ TokensOrdered toks3 ∧ TokensOrdered toks4 := by decide +kernel
+example : OpLexemes builtinOps toks1 ∧ OpLexemes builtinOps toks3 ∧ OpLexemes builtinOps toks4 := by
+  decide +kernel
+
+/-- the root span of `-a.f(x)[1] ? b : c` runs from the `-` to the `c` -/
+example : (parse builtinOps [] toks4).toOption.map Expr.pos = some ⟨0, 18, 0, 0⟩ := by
+  decide +kernel
+
+/-- **Redundant parentheses, an instance**: `(a * b) + c` and `a * b + c` give the same tree up
+to the group node (and the spans). -/
+theorem redundant_example :
+    shape [op "(" 0, sym "a" 1, op "*" 3, sym "b" 5, op ")" 6, op "+" 8, sym "c" 10] =
+      some ["(", "+", "(", "group", "(", "*", "a", "b", ")", ")", "c", ")"] ∧
+    shape [sym "a" 1, op "*" 3, sym "b" 5, op "+" 8, sym "c" 10] =
+      some ["(", "+", "(", "*", "a", "b", ")", "c", ")"] := by decide +kernel
+
+/-- **Required parentheses, an instance**: `(a + b) * c` keeps its group node and differs from
+`a + b * c`. -/
+theorem required_example :
+    shape [op "(" 0, sym "a" 1, op "+" 3, sym "b" 5, op ")" 6, op "*" 8, sym "c" 10] =
+      some ["(", "*", "(", "group", "(", "+", "a", "b", ")", ")", "c", ")"] ∧
+    shape [sym "a" 1, op "+" 3, sym "b" 5, op "*" 8, sym "c" 10] =
+      some ["(", "+", "a", "(", "*", "b", "c", ")", ")"] := by decide +kernel
+
+/-- `(o.f)(x)` and `o.f(x)`: the call of a group versus the method-call form (built by the `.`);
+the trees agree up to the group node, as `redundant_parens` says -/
+example :
+    shape [op "(" 0, sym "o" 1, op "." 2, sym "f" 3, op ")" 4, op "(" 5, sym "x" 6, op ")" 7] =
+      some ["(", "call", "(", "group", "(", ".", "o", "f", ")", ")", "x", ")"] ∧
+    shape [sym "o" 1, op "." 2, sym "f" 3, op "(" 5, sym "x" 6, op ")" 7] =
+      some ["(", "call", "(", ".", "o", "f", ")", "x", ")"] := by decide +kernel
+
+/-! ## the clauses of well-formedness are needed -/
+
+/-- With `)` registered as an infix operator, completeness fails: the tree of `(a)` yields the
+three tokens and respects the declarations, but `parse` rejects the input (after `a` it takes the
+`)` for the operator). -/
+theorem closer_needed :
+    ∃ (ops : List Operator) (toks : List Token) (t : Expr),
+      Yields (mkEnv ops [] toks) t 0 toks.length ∧ Respects (newGrammar ops) t ∧
+      OpLexemes ops toks ∧ parse ops [] toks = .error .syntax := by
+  refine ⟨[⟨")", 7, fixInfixL⟩], [op "(" 0, sym "a" 1, op ")" 2],
+    .group ⟨0, 3, 0, 0⟩ (.ident ⟨1, 2, 1, 0⟩ "a"), ?_, ?_, by decide +kernel,
+    eq_of_isSyntaxErr (by decide +kernel)⟩
+  · exact Yields.group (bp := bpNone) (i := 0) (j := 2) ⟨by decide +kernel, by decide +kernel⟩
+      (Yields.ident (bp := bpNone) (i := 1) ⟨by decide +kernel, by decide +kernel⟩)
+      ⟨by decide +kernel, by decide +kernel⟩ (by decide +kernel)
+  · simp [Respects, Expr.All, Expr.respHere, Expr.leftAbove, Expr.noChainHere]
+
+/-- With a prefix operator of negative power (`~` at `-1`), completeness fails: the tree of `~a`
+yields the tokens and respects the declarations, but `parse` rejects the input (`expr(-1)`
+demands an infix entry for the end of the input). -/
+theorem nonneg_prefix_needed :
+    ∃ (ops : List Operator) (toks : List Token) (t : Expr),
+      Yields (mkEnv ops [] toks) t 0 toks.length ∧ Respects (newGrammar ops) t ∧
+      OpLexemes ops toks ∧ parse ops [] toks = .error .syntax := by
+  refine ⟨[⟨"~", ⟨true, 0x3f800000⟩, fixPrefix⟩], [op "~" 0, sym "a" 1],
+    .unary ⟨0, 2, 0, 0⟩ "~" ⟨0, 1, 0, 0⟩ (.ident ⟨1, 2, 1, 0⟩ "a") true, ?_, ?_,
+    by decide +kernel, eq_of_isSyntaxErr (by decide +kernel)⟩
+  · exact Yields.pre (bp := ⟨true, 0x3f800000⟩) (i := 0) (j := 2)
+      ⟨by decide +kernel, by decide +kernel⟩
+      (Yields.ident (bp := bpNone) (i := 1) ⟨by decide +kernel, by decide +kernel⟩)
+      (by decide +kernel)
+  · simp [Respects, Expr.All, Expr.respHere, Expr.leftAbove, Expr.noChainHere]
+
+/-- neither table is well formed -/
+example : ¬ WFOps [⟨")", 7, fixInfixL⟩] ∧ ¬ WFOps [⟨"~", ⟨true, 0x3f800000⟩, fixPrefix⟩] := by
+  unfold WFOps; decide
+
+
 end Yae.C08
 
 #print axioms Yae.C08.node_invariant
@@ -170,3 +522,20 @@ end Yae.C08
 #print axioms Yae.C08.span_composed
 #print axioms Yae.C08.span_binary_root
 #print axioms Yae.C08.outcomes
+#print axioms Yae.C08.yields_prefix
+#print axioms Yae.C08.yields
+#print axioms Yae.C08.lexed_ordered
+#print axioms Yae.C08.span_exact
+#print axioms Yae.C08.span_nested
+#print axioms Yae.C08.respects
+#print axioms Yae.C08.wf_builtin
+#print axioms Yae.WFOps.grammar
+#print axioms Yae.C08.complete
+#print axioms Yae.C08.unique
+#print axioms Yae.C08.exactly
+#print axioms Yae.C08.required_parens
+#print axioms Yae.C08.redundant_parens
+#print axioms Yae.C08.redundant_example
+#print axioms Yae.C08.required_example
+#print axioms Yae.C08.closer_needed
+#print axioms Yae.C08.nonneg_prefix_needed
